@@ -99,6 +99,9 @@ type c14Case struct {
 	// written (a peer one round trip away).
 	Start int      `json:"start"`
 	Reqs  []c14Req `json:"reqs"`
+	// Aim names the header list that was padded to land on a limit boundary, e.g.
+	// "req-header:limit+1" (informational; the padding field is part of the plan).
+	Aim string `json:"aim,omitempty"`
 }
 
 const c14MaxBody = 400 << 10
@@ -321,6 +324,13 @@ func c14Gen(t *rapid.T) c14Case {
 		// that out of the domain
 		c.Start = 0
 	}
+	if rapid.IntRange(0, 3).Draw(t, "aim") == 0 {
+		c14Aim(&c,
+			rapid.IntRange(0, len(c.Reqs)-1).Draw(t, "aim-k"),
+			rapid.IntRange(0, 3).Draw(t, "aim-which"),
+			rapid.SampledFrom([]int{0, 0, 1, -1}).Draw(t, "aim-delta"),
+			rapid.IntRange(0, 2).Draw(t, "aim-lim"))
+	}
 	for k := range c.Reqs {
 		if c.overLimit(&c.Reqs[k]) {
 			// see c14Run: bounded pipes are not combined with exchanges that may end in a
@@ -329,4 +339,74 @@ func c14Gen(t *rapid.T) c14Case {
 		}
 	}
 	return c
+}
+
+// c14Aim pads one header list of exchange k so that its size (RFC 9113 6.5.2) is exactly
+// the receiver's limit + delta: which = 0 request header, 1 request trailers (both
+// against the server's limit), 2 response header, 3 response trailers (against the
+// Transport's limit). A default (huge) limit is first replaced by a small one.
+func c14Aim(c *c14Case, k, which, delta, lim int) {
+	q := &c.Reqs[k]
+	noBody := q.Status == 204 || q.Status == 304
+	if which == 3 && (noBody || q.Method == "HEAD") {
+		which = 2
+	}
+	if which <= 1 {
+		if c.Srv.MaxHeaderBytes == 0 {
+			c.Srv.MaxHeaderBytes = []int{1024, 4096, 20000}[lim]
+		}
+	} else if c.Cli.MaxHeaderList == 0 || c.Cli.MaxHeaderList == 0xffffffff {
+		c.Cli.MaxHeaderList = []uint32{2000, 20000, 100000}[lim]
+	}
+	pad := func(cur, limit int, name string) (c14Field, bool) {
+		need := limit + delta - cur - (len(name) + 32)
+		switch {
+		case need < 0:
+			return c14Field{}, false
+		case need == 0:
+			return c14Field{Name: name, Rep: 1}, true
+		}
+		return c14Field{Name: name, Seed: "p", Rep: need}, true
+	}
+	what := ""
+	switch which {
+	case 0:
+		if f, ok := pad(q.reqListSize(k), c.Srv.headerLimit(), "Vp-Pad"); ok {
+			q.Fields = append(q.Fields, f)
+			what = "req-header"
+		}
+	case 1:
+		if q.BodyKind != 2 {
+			q.BodyKind, q.Chunks, q.DeclLen = 2, nil, false
+		}
+		if f, ok := pad(c14ListSize(q.Trailers), c.Srv.headerLimit(), "Vp-Trpad"); ok {
+			q.Trailers = append(q.Trailers, f)
+			what = "req-trailer"
+		}
+	case 2:
+		// make the server's own additions predictable
+		g := c14Group(q.RFields)
+		if _, ok := g["Content-Type"]; !ok {
+			q.RFields = append(q.RFields, c14Field{Name: "Content-Type", Seed: "text/vp", Rep: 1})
+		}
+		if _, ok := g["Date"]; !ok {
+			q.RFields = append(q.RFields, c14Field{Name: "Date", Seed: "vp-date", Rep: 1})
+		}
+		if !noBody {
+			q.RDeclLen = true
+		}
+		cur, _ := q.respListSize()
+		if f, ok := pad(cur, c.Cli.headerLimit(), "Vp-Pad"); ok {
+			q.RFields = append(q.RFields, f)
+			what = "resp-header"
+		}
+	case 3:
+		if f, ok := pad(c14ListSize(q.RTrailers)+c14ListSize(q.RPTrailers), c.Cli.headerLimit(), "Vp-Trpad"); ok {
+			q.RTrailers = append(q.RTrailers, f)
+			what = "resp-trailer"
+		}
+	}
+	if what != "" {
+		c.Aim = what + ":" + []string{"limit-1", "limit", "limit+1"}[delta+1]
+	}
 }
